@@ -447,6 +447,13 @@ pub fn c01(tier: &str) -> i32 {
         &crate::absx::ClosureCfg { label: "C01: + modifies, last two operation classes in the key", max_rest: if t { 3 } else { 2 }, max_vol: 2, modify: true, toggles: false, create: true, redundant: false, ties: false, prices: 3, reload_depth: 0, suffix_k: 2 },
         false,
     );
+    // long queues: one price level, up to four (thorough five) resting orders per side, re-queuing modifies
+    crate::absx::run_closure(
+        &mut out,
+        &mon,
+        &crate::absx::ClosureCfg { label: "C01: one price, queues of up to four orders, re-queuing modifies, toggles", max_rest: if t { 5 } else { 4 }, max_vol: 2, modify: true, toggles: true, create: false, redundant: false, ties: false, prices: 1, reload_depth: 0, suffix_k: 1 },
+        false,
+    );
     out.assumptions = vec![
         "reference model (harness/src/refmodel.rs) is the definition of price-time priority".into(),
         "prices beyond three levels / volumes beyond the small set behave like the explored ones (no magnitude-dependent control flow below 2^32)".into(),
@@ -557,6 +564,14 @@ pub fn c02(tier: &str) -> i32 {
         &mut out,
         &mon,
         &crate::absx::ClosureCfg { label: "C02: views recomputed in every reachable book state (modify, toggles, create/place, reload)", max_rest: if t { 3 } else { 2 }, max_vol: 2, modify: true, toggles: true, create: true, redundant: false, ties: false, prices: 3, reload_depth: 1, suffix_k: if t { 2 } else { 1 } },
+        false,
+    );
+    // long queues at one price: up to four (thorough five) resting orders per side on a single price level,
+    // re-queuing modifies and snapshot reloads among the actions (queue order != id order at a reload)
+    crate::absx::run_closure(
+        &mut out,
+        &mon,
+        &crate::absx::ClosureCfg { label: "C02: one price, queues of up to four orders, re-queuing modifies, toggles, reloads", max_rest: if t { 5 } else { 4 }, max_vol: 2, modify: true, toggles: true, create: false, redundant: false, ties: false, prices: 1, reload_depth: 2, suffix_k: 1 },
         false,
     );
     out.assumptions = vec![
@@ -848,6 +863,12 @@ pub fn c06(tier: &str) -> i32 {
         &mut out,
         &mon,
         &crate::absx::ClosureCfg { label: "C06: every modify shape, last two operation classes in the key", max_rest: 2, max_vol: if t { 3 } else { 2 }, modify: true, toggles: true, create: false, redundant: false, ties: false, prices: 3, reload_depth: 0, suffix_k: 2 },
+        false,
+    );
+    crate::absx::run_closure(
+        &mut out,
+        &mon,
+        &crate::absx::ClosureCfg { label: "C06: one price, queues of up to four orders, every modify shape on every seat", max_rest: if t { 5 } else { 4 }, max_vol: 2, modify: true, toggles: true, create: false, redundant: false, ties: false, prices: 1, reload_depth: 0, suffix_k: 1 },
         false,
     );
     out.assumptions = vec!["reference model encodes the statement: only (no price, smaller volume) keeps the seat".into()];
